@@ -2,7 +2,8 @@
 
 stdin: {"cases": [case, ...]}   ->   RESULT [[obs_step, ...] per case]
 A case: {"mode": "func"|"live", "legacy": bool, "gobj": [[ident, vid], ...], "steps": [step, ...]} with
-  step = {"t": "x", "x": ["set", [d, n], vid, [[k, vid], ...]] | ["rm", [d, n]] | ["reg", [d, n]] | ["unreg", [d, n]]}
+  step = {"t": "x", "x": ["set", [d, n], vid, [[k, vid], ...]] | ["rm", [d, n]] | ["reg", [d, n]] | ["unreg", [d, n]]
+                         | ["regm", [d, n]] (service with an entity_id parameter) | ["refresh"] (State.get_service_params)}
        | {"t": "s", "loc": [[ident, [[k, vid], ...]], ...], "op": [...]}          (see gen_core for the op forms)
 Script steps are executed by *script code*: in "func" mode each step is the body of its own pyscript function, run by
 calling the script's `pyscript.pv_step` service; in "live" mode each step is evaluated at global level by a fresh
@@ -171,8 +172,34 @@ def observe(hass, gst):
         "ha": ha,
         "gobj": sink.attrs_of(g.__dict__) if isinstance(g, sink.PvObj) else None,
         "slots": [sink.pyval(gst.get(f"s{j}")) for j in T.SLOTS],
-        "svcs": [list(e) for e in (T.DYN_SVC, T.SVC_ARG, T.FUNC_NAME, (1, 10), (3, 10)) if hass.services.has_service(T.IDENT[e[0]], T.IDENT[e[1]])],
+        "svcs": [list(e) for e in [T.DYN_SVC, T.FUNC_NAME, (1, 10), (3, 10)] + T.METHOD_SVCS if hass.services.has_service(T.IDENT[e[0]], T.IDENT[e[1]])],
+        # ground truth kept by the worker: the entity services existing now, and those that existed at the last refresh
+        "esvcs": [list(e) for e in T.METHOD_SVCS if e in ESVCS and hass.services.has_service(T.IDENT[e[0]], T.IDENT[e[1]])],
+        "svcargs": [list(e) for e in sorted(AT_REFRESH)],
     }
+
+
+ESVCS = set()        # entity services registered by the worker (with an entity_id field in their description)
+AT_REFRESH = set()   # the entity services that existed when State.get_service_params() last ran
+
+
+def register_entity_service(hass, e, handler):
+    from homeassistant.helpers.service import async_set_service_schema
+
+    hass.services.async_register(T.IDENT[e[0]], T.IDENT[e[1]], handler)
+    async_set_service_schema(hass, T.IDENT[e[0]], T.IDENT[e[1]],
+                             {"name": T.IDENT[e[1]], "description": "x", "fields": {"entity_id": {"description": "e", "example": "x"},
+                                                                                    "amount": {"description": "a", "example": 1}}})
+    ESVCS.add(tuple(e))
+
+
+async def refresh_service_params(hass):
+    """what the homeassistant_started handler and pyscript.reload run"""
+    from custom_components.pyscript.state import State
+
+    await State.get_service_params()
+    AT_REFRESH.clear()
+    AT_REFRESH.update(e for e in ESVCS if hass.services.has_service(T.IDENT[e[0]], T.IDENT[e[1]]))
 
 
 async def run_case(case):
@@ -208,11 +235,10 @@ async def _run_steps(case, env, hass, clock):
             return None
 
         # a service with an entity_id parameter -> entity service method pvd.<entity>.meth
-        hass.services.async_register(T.IDENT[T.SVC_ARG[0]], T.IDENT[T.SVC_ARG[1]], _noop)
-        async_set_service_schema(hass, T.IDENT[T.SVC_ARG[0]], T.IDENT[T.SVC_ARG[1]],
-                                 {"name": "meth", "description": "x", "fields": {"entity_id": {"description": "e", "example": "x"},
-                                                                                 "amount": {"description": "a", "example": 1}}})
-        await State.get_service_params()
+        ESVCS.clear()
+        AT_REFRESH.clear()
+        register_entity_service(hass, T.SVC_ARG, _noop)
+        await refresh_service_params(hass)
         await env.settle()
         gctx = GlobalContextMgr.get(CTX)
         load_failed = None
@@ -242,9 +268,14 @@ async def _run_steps(case, env, hass, clock):
                     hass.states.async_remove(ename(x[1]))
                 elif x[0] == "reg":
                     hass.services.async_register(T.IDENT[x[1][0]], T.IDENT[x[1][1]], _noop)
+                elif x[0] == "regm":
+                    register_entity_service(hass, x[1], _noop)
+                elif x[0] == "refresh":
+                    await refresh_service_params(hass)
                 elif x[0] == "unreg":
                     if hass.services.has_service(T.IDENT[x[1][0]], T.IDENT[x[1][1]]):
                         hass.services.async_remove(T.IDENT[x[1][0]], T.IDENT[x[1][1]])
+                    ESVCS.discard(tuple(x[1]))
                 else:
                     raise ValueError(x)
                 await env.settle()
@@ -281,7 +312,7 @@ def main():
         except Exception as exc:  # pylint: disable=broad-except
             import traceback
 
-            res.append([{"res": {"exc": "WorkerError", "msg": (type(exc).__name__ + ": " + str(exc) + traceback.format_exc()[-600:])}, "ha": [], "gobj": None, "slots": [], "svcs": []}])
+            res.append([{"res": {"exc": "WorkerError", "msg": (type(exc).__name__ + ": " + str(exc) + traceback.format_exc()[-600:])}, "ha": [], "gobj": None, "slots": [], "svcs": [], "esvcs": [], "svcargs": []}])
     print("RESULT " + json.dumps(res))
 
 
